@@ -42,6 +42,12 @@ type SigSpec struct {
 	// DigestOver, when non-nil, is the content the message-digest attribute is
 	// computed over instead of the payload (a signature lifted from another TRC).
 	DigestOver []byte
+	// Lift plans, LiftSig carries a signature value lifted verbatim from a
+	// SignerInfo of the same signer over another payload (one that a verifier
+	// has already seen and accepted): the signed attributes are those for this
+	// payload (message digest repointed), the signature value is the old one.
+	Lift    bool
+	LiftSig []byte
 	// SKID uses the subjectKeyIdentifier choice (SignerInfo version 3).
 	SKID bool
 	// SigningTime is the value of the signing-time attribute.
@@ -165,6 +171,9 @@ func SignerInfo(payload []byte, s SigSpec) (protocol.SignerInfo, error) {
 		return si, err
 	}
 	si.Signature = TamperSig(sig, s.Tamper, s.TamperPos)
+	if s.LiftSig != nil {
+		si.Signature = append([]byte{}, s.LiftSig...)
+	}
 	return si, nil
 }
 
